@@ -12,6 +12,7 @@ import (
 	"time"
 
 	"veriftxn/common"
+	_ "veriftxn/unibk"
 
 	"github.com/tikv/client-go/v2/verifrt/ev"
 	"github.com/tikv/client-go/v2/verifrt/sched"
